@@ -330,6 +330,10 @@ func (db *MultiBucketBackend) ForceDeleteBucket(name string) error {
 }
 
 func (db *MultiBucketBackend) BucketExists(name string) (exists bool, err error) {
+	if err := gofakes3.ValidateBucketName(name); err != nil {
+		// "." and ".." would alias the directory that holds the buckets
+		return false, nil
+	}
 	db.lock.Lock()
 	defer db.lock.Unlock()
 	exists, err = afero.Exists(db.bucketFs, name)
@@ -348,6 +352,9 @@ func (db *MultiBucketBackend) HeadObject(bucketName, objectName string) (*gofake
 		return nil, gofakes3.BucketNotFound(bucketName)
 	}
 
+	if !validKey(objectName) {
+		return nil, gofakes3.KeyNotFound(objectName)
+	}
 	fullPath := path.Join(bucketName, objectName)
 
 	stat, err := db.bucketFs.Stat(filepath.FromSlash(fullPath))
@@ -387,6 +394,9 @@ func (db *MultiBucketBackend) GetObject(bucketName, objectName string, rangeRequ
 		return nil, gofakes3.BucketNotFound(bucketName)
 	}
 
+	if !validKey(objectName) {
+		return nil, gofakes3.KeyNotFound(objectName)
+	}
 	fullPath := path.Join(bucketName, objectName)
 
 	f, err := db.bucketFs.Open(filepath.FromSlash(fullPath))
@@ -444,6 +454,10 @@ func (db *MultiBucketBackend) PutObject(
 	meta map[string]string,
 	input io.Reader, size int64,
 ) (result gofakes3.PutObjectResult, err error) {
+
+	if !validKey(objectName) {
+		return result, invalidKey(objectName)
+	}
 
 	err = gofakes3.MergeMetadata(db, bucketName, objectName, meta)
 	if err != nil {
@@ -537,6 +551,9 @@ func (db *MultiBucketBackend) DeleteObject(bucketName, objectName string) (resul
 }
 
 func (db *MultiBucketBackend) deleteObjectLocked(bucketName, objectName string) error {
+	if !validKey(objectName) {
+		return invalidKey(objectName)
+	}
 	fullPath := path.Join(bucketName, objectName)
 
 	// S3 does not report an error when attemping to delete a key that does not exist, so
